@@ -73,13 +73,34 @@ def run(chk):
             sizekw = None
         elif tid % 41 == 5:
             # long strings of one shape: many short alphanumeric fragments (the capture-group budget of 99 is reached)
+            # (also beyond it, with strings of different lengths in one input and a few short ones next to them)
             npairs = rnd.choice([30, 40, 45, 48])
-            def longstr():
-                return '-'.join(rnd.choice('abcdefgh') + rnd.choice('0123456789') for _ in range(npairs))
-            ex = [longstr() for _ in range(rnd.randint(2, 3))]
+            def longstr(np_=None):
+                return '-'.join(rnd.choice('abcdefgh') + rnd.choice('0123456789') for _ in range(np_ or npairs))
+            if rnd.random() < 0.5:
+                ex = [longstr() for _ in range(rnd.randint(2, 3))]
+            else:
+                ex = [longstr(np_) for np_ in rnd.sample([34, 48, 50, 52, 60, 70, 75], rnd.randint(2, 3))]
+                ex += rnd.sample(['xyz', 'pq', 'a1-b2', '12'], rnd.randint(0, 2))
             kw = {'tag': True} if rnd.random() < 0.5 else {}
             kw['dialect'] = rnd.choice(rx.DIALECTS)
             sizekw = None
+        elif tid % 41 in (9, 29):
+            # sampling: a majority of plain strings and a few members in which the extra letters occur only next to
+            # punctuation - the first sample may not contain any of them
+            xl = rnd.choice(['_-', '_.', '.-', '_.-'])
+            letters = 'abcdefghijklmnopqrstuvwx'
+            plain = [c + rnd.choice([c, c.upper()]) for c in rnd.sample(letters, rnd.randint(16, 24))]
+            puncts = rnd.sample('!#$%&*+=@~;:', rnd.randint(5, 8))
+            rare = [xl[i % len(xl)] + pc for i, pc in enumerate(puncts)]
+            ex = plain + rare
+            rnd.shuffle(ex)
+            kw = {'dialect': rnd.choice(rx.DIALECTS), 'extra_letters': xl, 'seed': rnd.randint(0, 19)}
+            if rnd.random() < 0.3:
+                kw['tag'] = True
+            sizekw = {'do_all': rnd.randint(2, 3), 'do_all_exceptions': rnd.randint(3, 5)}
+            from tdda.rexpy.rexpy import Size as Size_
+            kw['size'] = Size_(**sizekw)
         elif tid % 41 == 7:
             # two shapes that share a constant at the same place from the left; the shorter shape ends there
             sep = rnd.choice([':', '-', '/', '='])
